@@ -284,6 +284,105 @@ Qed.
 Lemma tk_init_inv : tk_inv tk_init.
 Proof. unfold tk_inv, tk_init, tk, MAXBUF. cbn. lia. Qed.
 
+(* ------------------------------------------------------------------ every input byte goes into at most one text token *)
+Definition tk_acc (s : tks) : nat := (List.length (tbuf s) + List.length (pending (tmd s)))%nat.
+Definition le_res (k : nat) (r : tks * list tok) : Prop := (text_bytes (snd r) + tk_acc (fst r) <= k)%nat.
+
+Ltac fin2 :=
+  unfold le_res, tk_acc, tk, add_toks in *;
+  cbn [fst snd tmd tcnt tbuf pending text_bytes List.length app rev] in *;
+  rewrite ?push_len, ?text_bytes_app, ?text_bytes_flush, ?app_length, ?rev_length in *;
+  cbn [fst snd tmd tcnt tbuf pending text_bytes List.length app rev] in *;
+  lia.
+
+Lemma txt_on_acc : forall tb n c, le_res (List.length tb + 1) (txt_on tb n c).
+Proof. intros. unfold txt_on. ifs; fin2. Qed.
+Lemma raw_on_acc : forall tag tb n c, le_res (List.length tb + 1) (raw_on tag tb n c).
+Proof. intros. unfold raw_on. ifs; fin2. Qed.
+Lemma sdata_on_acc : forall tb n c, le_res (List.length tb + 1) (sdata_on tb n c).
+Proof. intros. unfold sdata_on. ifs; fin2. Qed.
+Lemma sesc_on_acc : forall tb n c, le_res (List.length tb + 1) (sesc_on tb n c).
+Proof. intros. unfold sesc_on. ifs; fin2. Qed.
+Lemma sdbl_on_acc : forall tb n c, le_res (List.length tb + 1) (sdbl_on tb n c).
+Proof. intros. unfold sdbl_on. ifs; fin2. Qed.
+Lemma sdblstart_on_acc : forall todo tb n c, le_res (List.length tb + 1) (sdblstart_on todo tb n c).
+Proof. intros. unfold sdblstart_on. destruct todo; ifs; try apply sesc_on_acc; fin2. Qed.
+Lemma gt_on_acc : forall n c, le_res 0 (gt_on n c).
+Proof. intros. unfold gt_on. ifs; fin2. Qed.
+Lemma tag_on_acc : forall n e ts nm pv c, le_res 0 (tk_tag_on n e ts nm pv c).
+Proof. intros. unfold tk_tag_on, tk_tag_done. destruct (tag_step ts c); ifs; fin2. Qed.
+Lemma scr_fail_acc : forall cx tb n c, le_res (List.length tb + 1) (scr_fail cx tb n c).
+Proof. intros. destruct cx; [apply sdata_on_acc|apply sesc_on_acc|apply sdbl_on_acc]. Qed.
+Lemma le_res_mono : forall k k' r, le_res k r -> (k <= k')%nat -> le_res k' r.
+Proof. unfold le_res. intros. lia. Qed.
+
+Lemma scr_on_acc : forall st tb n c, le_res (List.length tb + List.length (pending (MScr st)) + 1) (scr_on st tb n c).
+Proof.
+  intros st tb n c. unfold scr_on.
+  destruct st; cbn [pending List.length]; ifs;
+    first [ eapply le_res_mono; [apply sdata_on_acc|cbn [List.length]; lia]
+          | eapply le_res_mono; [apply sesc_on_acc|cbn [List.length]; lia]
+          | eapply le_res_mono; [apply sdbl_on_acc|cbn [List.length]; lia]
+          | eapply le_res_mono; [apply sdblstart_on_acc|cbn [List.length]; lia]
+          | fin2 ].
+Qed.
+
+Lemma add_toks_acc : forall k tb r, le_res 0 r -> le_res (List.length tb) (add_toks (flush k tb) r).
+Proof. intros k tb [s ts] H. unfold le_res, add_toks in *. cbn [fst snd] in *. rewrite text_bytes_app, text_bytes_flush. lia. Qed.
+
+Lemma tk_step_acc : forall s c, le_res (tk_acc s + 1) (tk_step s c).
+Proof.
+  intros [m n tb] c. unfold tk_acc. cbn [tmd tcnt tbuf]. unfold tk_step. cbn [tmd tcnt tbuf].
+  assert (EXC : le_res (List.length tb + List.length (pending m) + 1)
+                  (tk MStop 0 [], (if is_text_mode m then flush (kind_of m) (c :: push (pending m) tb)
+                                   else if is_other_mode m then [TkOther] else []) ++ [TkOver])).
+  { unfold le_res, tk_acc, tk. cbn [fst snd tmd tbuf pending List.length]. rewrite text_bytes_app. cbn [text_bytes].
+    destruct (is_text_mode m); [rewrite text_bytes_flush; cbn [List.length]; rewrite push_len; lia|].
+    destruct (is_other_mode m); cbn [text_bytes]; lia. }
+  destruct m; try (destruct (MAXBUF <=? n + 1); [exact EXC|clear EXC]).
+  + eapply le_res_mono; [apply txt_on_acc|lia].
+  + cbn [pending List.length]. ifs; try (eapply le_res_mono; [apply txt_on_acc|cbn [List.length]; lia]); fin2.
+  + ifs; fin2.
+  + ifs; try (eapply le_res_mono; [apply gt_on_acc|lia]); fin2.
+  + eapply le_res_mono; [apply gt_on_acc|lia].
+  + ifs; fin2.
+  + ifs; fin2.
+  + eapply le_res_mono; [apply tag_on_acc|lia].
+  + eapply le_res_mono; [apply raw_on_acc|lia].
+  + cbn [pending List.length]. ifs; [fin2|]. eapply le_res_mono; [apply raw_on_acc|cbn [List.length]; lia].
+  + cbn [pending List.length]. rewrite rev_length. destruct todo as [|p0 todo].
+    * ifs.
+      -- eapply le_res_mono; [apply add_toks_acc; apply tag_on_acc|lia].
+      -- eapply le_res_mono; [apply raw_on_acc|rewrite push_len; cbn [pending List.length]; rewrite rev_length; lia].
+    * ifs; [fin2|]. eapply le_res_mono; [apply raw_on_acc|rewrite push_len; cbn [pending List.length]; rewrite rev_length; lia].
+  + fin2.
+  + apply scr_on_acc.
+  + cbn [pending List.length]. rewrite rev_length. destruct todo as [|p0 todo].
+    * ifs.
+      -- destruct cx.
+         ++ eapply le_res_mono; [apply add_toks_acc; apply tag_on_acc|lia].
+         ++ eapply le_res_mono; [apply add_toks_acc; apply tag_on_acc|lia].
+         ++ unfold le_res, tk_acc, tk. cbn [fst snd tmd tcnt tbuf pending text_bytes List.length].
+            rewrite push_len. cbn [pending List.length]. rewrite rev_length. lia.
+      -- eapply le_res_mono; [apply scr_fail_acc|rewrite push_len; cbn [pending List.length]; rewrite rev_length; lia].
+    * ifs; [fin2|]. eapply le_res_mono; [apply scr_fail_acc|rewrite push_len; cbn [pending List.length]; rewrite rev_length; lia].
+  + fin2.
+Qed.
+
+Lemma tk_fin_acc : forall s, (text_bytes (tk_fin s) <= tk_acc s)%nat.
+Proof.
+  intros [m n tb]. unfold tk_fin, tk_acc. cbn [tmd tbuf].
+  destruct m; cbn [is_text_mode is_other_mode]; rewrite ?text_bytes_app, ?text_bytes_flush, ?push_len; cbn [text_bytes]; lia.
+Qed.
+
+Lemma tk_run_bytes : forall l s, (text_bytes (tk_run s l) <= tk_acc s + List.length l)%nat.
+Proof.
+  induction l as [|c l IH]; intros s.
+  - cbn [tk_run List.length]. pose proof (tk_fin_acc s). lia.
+  - cbn [tk_run List.length]. pose proof (tk_step_acc s c) as A. destruct (tk_step s c) as [s' ts].
+    unfold le_res in A. cbn [fst snd] in A. rewrite text_bytes_app. specialize (IH s'). lia.
+Qed.
+
 (* ------------------------------------------------------------------ what the decoder holds, for any tokenizer with a bounded buffer *)
 Section Buffering.
   Variable T : Type.
